@@ -15,6 +15,8 @@ use super::connection::{BlockingOp};
 #[derive(Debug, Clone)]
 pub struct BlockedClient {
     pub conn_id: u64,
+    /// Registration order across all keys and databases (clients are served in this order)
+    pub seq: u64,
     pub blocked_at: Instant,
     pub deadline: Option<Instant>,
     pub op_type: BlockingOp,
@@ -139,6 +141,8 @@ pub struct BlockingManager {
     wake_queue: Arc<SegQueue<WakeupRequest>>,
     /// Shutdown signal
     shutdown: Arc<Mutex<bool>>,
+    /// Source of registration sequence numbers
+    next_seq: std::sync::atomic::AtomicU64,
 }
 
 impl BlockingManager {
@@ -152,6 +156,7 @@ impl BlockingManager {
             registries,
             wake_queue: Arc::new(SegQueue::new()),
             shutdown: Arc::new(Mutex::new(false)),
+            next_seq: std::sync::atomic::AtomicU64::new(1),
         }
     }
     
@@ -163,6 +168,7 @@ impl BlockingManager {
         
         let client = BlockedClient {
             conn_id,
+            seq: self.next_seq.fetch_add(1, std::sync::atomic::Ordering::Relaxed),
             blocked_at: Instant::now(),
             deadline,
             op_type,
@@ -198,30 +204,45 @@ impl BlockingManager {
         registry.has_blocked_clients(key)
     }
     
-    /// Notify that a key has received data (called from LPUSH/RPUSH)
-    pub fn notify_key_ready(&self, db: DatabaseIndex, key: &[u8]) {
-        if db >= self.registries.len() {
-            return;
-        }
-        
-        // Only wake up one client at a time per key to prevent deadlock
-        // When an item is pushed, only the first waiting client should be notified
-        let client = {
-            let mut registry = self.registries[db].write().unwrap();
-            match registry.pop_first_waiter(key) {
-                Some(c) => c,
-                None => return, // No clients waiting on this key
+    /// Notify that a key has received data (called from LPUSH/RPUSH).
+    ///
+    /// Waiters are no longer taken out of the registry here: a waiter stays registered on all
+    /// of its keys until the event loop has actually handed it an element (or it timed out or
+    /// disconnected). Popping it at notification time lost the registration whenever the list
+    /// was emptied again before the wake-up was processed, served only one waiter for a
+    /// multi-element push, and left multi-key waiters registered on their other keys. The
+    /// event loop serves waiters by scanning them in registration order (see
+    /// `blocked_connections_in_order` and `Server::process_wakeups`), which also covers lists
+    /// filled from scripts and transactions.
+    pub fn notify_key_ready(&self, _db: DatabaseIndex, _key: &[u8]) {
+    }
+    
+    /// True if at least one client is blocked in any database (fast path for the event loop)
+    pub fn has_any_blocked(&self) -> bool {
+        self.registries.iter().any(|registry| {
+            let registry = registry.read().unwrap();
+            !registry.blocked_on_key.is_empty()
+        })
+    }
+    
+    /// All blocked connections, each once, in the order in which they blocked
+    pub fn blocked_connections_in_order(&self) -> Vec<(u64, DatabaseIndex)> {
+        let mut seen: HashMap<u64, (u64, DatabaseIndex)> = HashMap::new();
+        for (db, registry) in self.registries.iter().enumerate() {
+            let registry = registry.read().unwrap();
+            for clients in registry.blocked_on_key.values() {
+                for client in clients {
+                    seen.entry(client.conn_id)
+                        .and_modify(|entry| if client.seq < entry.0 { *entry = (client.seq, db); })
+                        .or_insert((client.seq, db));
+                }
             }
-        };
-        
-        // Send single wake-up request
-        // Additional items pushed will wake additional clients one by one
-        self.wake_queue.push(WakeupRequest {
-            conn_id: client.conn_id,
-            db,
-            key: key.to_vec(),
-            op_type: client.op_type,
-        });
+        }
+        let mut ordered: Vec<(u64, u64, DatabaseIndex)> = seen.into_iter()
+            .map(|(conn_id, (seq, db))| (seq, conn_id, db))
+            .collect();
+        ordered.sort();
+        ordered.into_iter().map(|(_, conn_id, db)| (conn_id, db)).collect()
     }
     
     /// Process wake-up queue (called from main server loop)
